@@ -219,7 +219,7 @@ fn c23_allocation_matches_writer<const KIND: u8, const RELR: bool, const TLS: bo
     let raw_value: u64 = kani::any();
     kani::assume(raw_value >= 0x10000 && raw_value < (1 << 40));
     let Some(o) = c23_run(flags, kind, relr, raw_value) else { return };
-    kani::cover!(o.ok && o.n_general >= 1, "a general dynamic relocation");
+    kani::cover!(o.ok && o.got_used == 1, "a symbol with one GOT word");
     kani::cover!(o.ok && o.got_used >= 2, "a symbol with more than one GOT word");
     assert!(o.ok, "C23 writing a resolution never runs out of the space layout reserved");
     assert!(o.all_empty, "C23 writing a resolution uses all of the space layout reserved");
